@@ -236,6 +236,12 @@ Section Sys.
     | l :: tr' => negb (reg_step st l) && reg_free (do_label st l) tr'
     end.
 
+  (* adapter queries a lookup thread has still to make in its current pass *)
+  Fixpoint leading (c : list instr) : list slot :=
+    match c with Query s :: r => s :: leading r | _ => [] end.
+  Definition pending (k : key) (c : list instr) : list slot :=
+    match c with QueryAll :: _ => slots_of k | _ => leading c end.
+
   (* ---- nested schedules: what deterministic pre-emption can realise ---- *)
   Inductive op :=
   | OLookup (id : N) (k : key) (inj : list (nat * list op))   (* injection point -> operations run there *)
@@ -319,6 +325,26 @@ Definition std_lookup (tg : target) (guard : bool) : list instr :=
    IfMiss ([InitViews; QueryAll] ++ (if guard then [IfNonEmpty (std_wb tg)] else std_wb tg));
    Return].
 Definition std_register (m : clear_mode) : list instr := [RegisterAdapter; Clear m].
+
+(* ---- the property's claims, as statements about a pair of programs ---- *)
+
+(* a lookup that starts when no registration is in progress and during which the registrations do
+   not change returns lookup_all of the registrations in force, whatever happened before *)
+Definition fresh_claim (LP RP : list instr) : Prop :=
+  forall sro R0 tr1 k tr2,
+    let st1 := exec sro LP RP tr1 (init R0) in
+    let st2 := exec sro LP RP (SpawnLookup k :: tr2) st1 in
+    quietb st1 = true ->
+    reg_free sro LP RP st1 (SpawnLookup k :: tr2) = true ->
+    exists t, threads st2 (ntid st1) = Some t /\ tkind t = KLookup /\ tkey t = k /\
+              (cont t = [] -> tres t = Some (lookup_all sro (R st1) k)).
+
+(* failed lookups never grow the cache *)
+Definition misses_claim (LP RP : list instr) : Prop :=
+  forall sro R0 tr,
+    let st := exec sro LP RP tr (init R0) in
+    (forall c k vs, dget (heap st c) k = Some vs -> vs <> []) /\
+    (quietb st = true -> forall k, lookup_all sro (R st) k = [] -> dget (heap st (cur st)) k = None).
 
 (* ---- wire glue ---- *)
 Definition get_slot (v : val) : option slot :=
